@@ -206,6 +206,41 @@ theorem npres_pRetract (E : List Id) (D : List Nat) (id : Id) (x : Option Nat) :
       | exact h1
       | exact markChanged_ninv h1 hy rfl
 
+theorem npres_pCheck2 (E : List Id) (D : List Nat) (a b : Id) (pred : Staged → Staged → Option Err) :
+    NPres E D (pCheck2 a b pred) := by
+  intro s tx e h
+  unfold pCheck2
+  split
+  · exact h.same
+  · rename_i tx1 x hl
+    obtain ⟨h1, _⟩ := load_ninv h hl
+    split
+    · exact h1.same
+    · rename_i tx2 y hl2
+      obtain ⟨h2, _⟩ := load_ninv h1 hl2
+      split <;> exact h2.same
+
+theorem npres_pExpectStatus (E : List Id) (D : List Nat) (id : Id) (x : Option Nat) : NPres E D (pExpectStatus id x) := by
+  intro s tx e h
+  unfold pExpectStatus
+  split
+  · exact h.same
+  · exact npres_pCheck2 _ _ _ _ _ _ _ _ h
+
+theorem npres_pEdit (E : List Id) (D : List Nat) (id : Id) (k : Option Kind) (g : Staged → Option Err) (f : Row → Row)
+    (al : Bool) (op : Op) : NPres E D (pEdit id k g f al op) := by
+  intro s tx e h
+  unfold pEdit
+  split
+  · exact h.same
+  · rename_i tx1 y hl
+    obtain ⟨h1, hy⟩ := load_ninv h hl
+    repeat' split
+    all_goals first
+      | exact h1.same
+      | exact h1
+      | exact markChanged_ninv h1 hy rfl
+
 theorem npres_pAct (E : List Id) (D : List Nat) (id : Id) (a : Act) : NPres E D (pAct id a) := by
   intro s tx e h
   unfold pAct
@@ -271,12 +306,18 @@ macro "npres_chain" h:ident : tactic => `(tactic|
     | exact npres_pRetract _ _ _ _ _ _ _ $h
     | exact npres_pPurge _ _ _ _ _ _ _ $h
     | exact npres_pAssign _ _ _ _ _ _ _ $h
+    | exact npres_pEdit _ _ _ _ _ _ _ _ _ _ _ $h
+    | exact npres_pCheck2 _ _ _ _ _ _ _ _ $h
+    | exact npres_pExpectStatus _ _ _ _ _ _ _ $h
     | exact npres_pFail _ _ _ _ _ _ $h
     | exact npres_pGuard _ _ _ _
     | exact npres_pLoad _ _ _
     | exact npres_pExpect _ _ _ _
     | exact npres_pBind _ _ _ _
     | exact npres_pAssign _ _ _ _
+    | exact npres_pEdit _ _ _ _ _ _ _ _
+    | exact npres_pCheck2 _ _ _ _ _
+    | exact npres_pExpectStatus _ _ _ _
     | exact npres_pStageNew _ _ _ _ (by simp)
     | apply NInv.andThen
     | apply NPres.pMint
@@ -326,6 +367,10 @@ theorem applyClause_ninv (c : Clause) (D : List Nat) (hD : ∀ n, declares c = s
   | setState t to expect => simp only [applyClause]; (repeat' split) <;> npres_chain h
   | retract t expect => simp only [applyClause]; (repeat' split) <;> npres_chain h
   | purge t bad => simp only [applyClause]; (repeat' split) <;> npres_chain h
+  | supersede t b expect => simp only [applyClause]; (repeat' split) <;> npres_chain h
+  | correct t b => simp only [applyClause]; (repeat' split) <;> npres_chain h
+  | transition t to expect => simp only [applyClause]; (repeat' split) <;> npres_chain h
+  | setRetention t v expect => simp only [applyClause]; (repeat' split) <;> npres_chain h
 
 theorem declare_ok {s : Store} {tx : Tx} {n : Nat} {k : Kind} (hg : hGet tx.handles n = none) :
     declare s tx n k =
@@ -414,6 +459,10 @@ theorem declareClause_declared (c : Clause) (s : Store) (tx : Tx) :
   | setState => exact ⟨fun _ hm => hm, fun _ n hn => by cases hn⟩
   | retract => exact ⟨fun _ hm => hm, fun _ n hn => by cases hn⟩
   | purge => exact ⟨fun _ hm => hm, fun _ n hn => by cases hn⟩
+  | supersede => exact ⟨fun _ hm => hm, fun _ n hn => by cases hn⟩
+  | correct => exact ⟨fun _ hm => hm, fun _ n hn => by cases hn⟩
+  | transition => exact ⟨fun _ hm => hm, fun _ n hn => by cases hn⟩
+  | setRetention => exact ⟨fun _ hm => hm, fun _ n hn => by cases hn⟩
 
 theorem declareAll_mono (cs : List Clause) (p : PS) : ∀ m ∈ p.tx.declared, m ∈ (declareAll cs p).tx.declared := by
   unfold Tx.declareAll
